@@ -44,6 +44,11 @@ def collect(tier: str, seed: int, work: core.Work) -> dict:
         for m in mism:
             sig = dict(m['rec'].get('sig', {}))
             sig.update(clause=m['clause'], expected=m['exp'], record=m['rec'])
+            # C09 speaks about copies of Keyvalues trees and about '+' leaving its operands unchanged:
+            # only those clauses are violations; the other mutators' exact semantics are growth.
+            op = m['rec'].get('a', {}).get('op')
+            if not (op in ('add', 'copymut') and m['clause'] in ('kv.left_operand', 'kv.right_operand')):
+                sig['drift'] = 'KvTree'
             sigs.append(sig)
         rs = core.read_ndjson(p)
         samples.append(rs[len(rs) // 3])
